@@ -284,9 +284,11 @@ def check(run: common.Run):
         step = max(1, l2_all // (keep // 2))
         det = l2[::step]
         rest = [c for i, c in enumerate(l2) if i % step]
+        l2_sweep = det                       # the sweep must not depend on the seed
         l2 = det + rnd.sample(rest, min(len(rest), keep - len(det)))
     else:
         l2_all = len(l2)
+        l2_sweep = l2
     prim = [("P", t) for t in T.prim_cases()]
     prim_all = len(prim)
     if run.tier == "quick":
@@ -349,7 +351,7 @@ def check(run: common.Run):
     # ---- end-to-end oracle (deterministic sweep): rules + format_code on programs around expressions
     sweep_exprs = [t for lab, t in labelled if lab.startswith("W:")]
     sweep_exprs += [t for lab, t in l1[::(97 if run.tier == "quick" else 7)]]
-    sweep_exprs += T.L1_REPS + [t for _, t in l2[::(401 if run.tier == "quick" else 61)]]
+    sweep_exprs += T.L1_REPS + [t for _, t in l2_sweep[::(201 if run.tier == "quick" else 61)]]
     sweep_exprs = [t for t in sweep_exprs if not outside_claim(t)]
     jobs, meta, terms_of_job = [], [], []
     for t in sweep_exprs:
@@ -366,8 +368,10 @@ def check(run: common.Run):
         meta.append(("<fixed witness>", "witness", rule))
         terms_of_job.append(None)
     for t in sweep_exprs[:: (3 if run.tier == "quick" else 4)]:
-        if has_singleton_eq(t):
-            continue        # fixes.singleton_eq_comparison rewrites `x == True` to `x is True` (not C15's concern)
+        if has_singleton_eq(t) or has_display_membership(t):
+            # not C15's concern: fixes.singleton_eq_comparison rewrites `x == True` to `x is True`; a performance
+            # rule turns `x in [a, b]` into `x in {a, b}` (TypeError when x is unhashable)
+            continue
         src = T.to_src(t)
         for shape in ("if", "and", "comp"):
             jobs.append(("format_code", programs_for(src)[shape]))
@@ -657,6 +661,15 @@ def has_singleton_eq(t) -> bool:
                 return True
             left = right
     return any(has_singleton_eq(o) for o in T.operands(t))
+
+
+def has_display_membership(t) -> bool:
+    """in / not in against a list or tuple display somewhere in the expression"""
+    if t[0] == "cmp":
+        for op, right in t[2]:
+            if op in ("In", "NotIn") and right[0] in ("list", "tuple"):
+                return True
+    return any(has_display_membership(o) for o in T.operands(t))
 
 
 # ---- known-finding predicates (keyed by the sig= field) and their stored witnesses ----
